@@ -24,7 +24,11 @@ RULE = ("Hypothesis builds series of 4..60 samples (eight spacing kinds incl. in
         "points kept, interior points moved by 0.1..0.9 of the neighbouring gap, forwards / backwards / mixed, "
         "preferably on epoch / tiny abscissae) and 'integer grid' (np.arange-like or random integers around the "
         "range; every all-integer grid is passed as int64 array or list of Python ints, with non-integer y). "
-        "Weaver.interpolate(n) is also run with n = len(x) on non-uniform epoch / tiny x. Each of the four methods is run "
+        "Weaver.interpolate(n) is also run with n = len(x) on non-uniform epoch / tiny x; weaver_history applies 1..4 "
+        "preparatory steps (shift_y, scale_y, shift_x, scale_x > 0, polynomial trend, seeded noise, smooth, "
+        "interpolate by n / shifted / refined / thinned grid) to one Weaver and then interpolates deep copies of it "
+        "with every method on a grid derived from the current abscissae or with n points, judged against copies of "
+        "get() (non-trivial there = the working series differs from the reference). Each of the four methods is run "
         "through process.interpolate; Weaver.interpolate is run with n in 2..200 (thorough 2..600) and with explicit "
         "grids whose end points are equal, or differ at the first / last / both ends (by one ulp or more), and with "
         "unknown method names. Non-trivial = the new grid is not a subset of the samples (at_samples: the values "
@@ -39,6 +43,9 @@ ASSUMPTIONS = ["x strictly increasing, new grid non-decreasing and non-empty (do
                "<= 0.009 of the tolerance)",
                "interpolate(n): steps equal the exact (x_last - x_first)/(n-1) within 16 ulp of max|x| (numpy.linspace "
                "itself deviates by up to 3.64 ulp in a 2e5-case search, so DESIGN's 4 ulp was widened)",
+               "weaver_history: histories whose abscissae leave the conditioned range (not strictly increasing in "
+               "float arithmetic, fewer than 5 samples, gap ratio > 1e2) or that trigger a FITPACK warning are "
+               "counted and not judged",
                "outside the data range only finiteness is asserted for linear/cubic/spline (not stated)",
                "'exactly' is value equality (==), so -0.0 and 0.0 are not distinguished"]
 TECHNIQUE = ("Hypothesis-generated series x grids x methods against brute-force definitions (last sample at or before "
